@@ -82,6 +82,15 @@ def run(tier, seed, open_findings):
         d = docgen.gen(rng, rng.randrange(1, 4))
         d = d.replace('<t:sub ', '<t:sub xmlns:x%d="urn:x" ' % i, 1).replace('<t:item ', '<t:item xmlns:y="urn:y" ', 1).replace('<t:name>', '<t:name xmlns:z="urn:z">', 1)
         docs.append(d)
+    # redundant redeclarations: a chunk (or a descendant of it) declares again a binding that is already in scope with the same URI,
+    # and later siblings rely on the outer binding
+    for i in range(n // 4):
+        d = docgen.gen(rng, rng.randrange(2, 5))
+        k = rng.randrange(3)
+        d = d.replace('<t:item ', '<t:item xmlns:t="urn:t" ', 1 + (k == 2))
+        if k: d = d.replace('<t:name>', '<t:name xmlns:t="urn:t">', 1)
+        docs.append(d)
+    docs += ['<t:r xmlns:t="urn:t"/>', '<t:r xmlns:t="urn:t"></t:r>', '<t:r xmlns:t="urn:t">text</t:r>']       # a root without chunks
     jobs = [(ver, d) for d in docs for ver in ('1.0', '1.1')]
     docs2 = [gen2(rng) for _ in range(n // 3)]
     jobs += [(ver, d, 2) for d in docs2 for ver in ('1.0', '1.1')]
